@@ -37,7 +37,7 @@ def run_C02():
     rng = random.Random(SEED + 2)
     for segs in gen_cases(rng, int(1500 * BUDGET), max_segments=4):
         exp = G.expected(segs)
-        encs = {st: G.encode(segs, st) for st in ("explicit", "incremental", "nometa")}
+        encs = {st: G.encode(segs, st) for st in ("explicit", "incremental", "nometa", "restate")}
         res.case(sig_of(segs), encs["incremental"] != encs["explicit"],
                  {"segments": len(segs), "sizes": {k: len(v) for k, v in encs.items()}})
         for st, data in encs.items():
@@ -196,8 +196,16 @@ def run_C04():
                  "ValueError), every integer index in [-len-2, len+1], lazy and eager", "channels of <= 12 values; "
                  "exhaustive per channel within the stated ranges")
     rng = random.Random(SEED + 4)
-    for segs in numeric_cases(rng, int(60 * BUDGET), types=[3, 10, 0x20], max_segments=4):
+    for it, segs in enumerate(numeric_cases(rng, int(90 * BUDGET), types=[3, 10, 0x20], max_segments=4)):
         data = G.encode(segs, "explicit")
+        if it % 3 == 2:
+            # truncated final chunk: cut inside the last segment's raw data (fixed-width channels only)
+            if any(o["tcode"] == 0x20 for s in segs for o in s.objects):
+                continue
+            last = len(G.seg_data_bytes(segs[-1]))
+            if last < 2:
+                continue
+            data = data[:len(data) - rng.randint(1, last - 1)]
         eager = TdmsFile.read(io.BytesIO(data))
         with TdmsFile.open(io.BytesIO(data)) as lazy:
             for g in eager.groups():
@@ -535,8 +543,14 @@ def run_C19():
                  "chunk fetches nothing", "<= 3 segments x <= 3 channels x <= 3 chunks; all windows of channels "
                                           "with <= 10 values")
     rng = random.Random(SEED + 19)
-    for segs in gen_cases(rng, int(60 * BUDGET), types=[3, 10, 2], allow_interleaved=False, max_chunks=3):
+    for it, segs in enumerate(gen_cases(rng, int(90 * BUDGET), types=[3, 10, 2], allow_interleaved=False, max_chunks=3)):
         data = G.encode(segs, "explicit")
+        if it % 3 == 2:
+            # file cut inside the last segment's raw data: its final chunk is truncated
+            last = len(G.seg_data_bytes(segs[-1]))
+            if last < 2:
+                continue
+            data = data[:len(data) - rng.randint(1, last - 1)]
         # address map from the model: per channel, list of (value index range, byte range) per chunk
         amap = {}
         tags = []
@@ -555,9 +569,14 @@ def run_C19():
                     for ob in dobjs:
                         w = G.WIDTH[ob["tcode"]]
                         ent = amap.setdefault(ob["path"], {"n": 0, "chunks": []})
-                        if ob["nv"]:
-                            ent["chunks"].append((ent["n"], ent["n"] + ob["nv"], off, off + ob["nv"] * w, len(tags) - 1))
-                        ent["n"] += ob["nv"]
+                        if off + ob["nv"] * w > len(data) and off - (off - dpos) % csize + csize <= len(data):
+                            raise AssertionError("address map: cut outside the final chunk")
+                        have = max(0, min(off + ob["nv"] * w, len(data)) - off) // w
+                        if c * csize + dpos >= len(data):
+                            have = 0
+                        if have:
+                            ent["chunks"].append((ent["n"], ent["n"] + have, off, off + ob["nv"] * w, len(tags) - 1))
+                        ent["n"] += have
                         off += ob["nv"] * w
             pos = pos + 28 + no
         rec = Recorder(data)
@@ -568,10 +587,20 @@ def run_C19():
                     n = len(ch)
                     if ent is None or n == 0 or n > 10:
                         continue
+                    if n != ent["n"]:
+                        res.violation("c19/model-length", "%s: len %d, address map %d" % (ch.path, n, ent["n"]),
+                                      file_script(data, "pass\n"))
+                        continue
                     for off in range(0, n):
                         for ln in range(1, n - off + 1):
                             rec.log = []
-                            ch.read_data(off, ln)
+                            try:
+                                ch.read_data(off, ln)
+                            except Exception as e:
+                                res.violation("c19/windowed-read-raised", "%s read_data(%d,%d): %r" % (ch.path, off, ln, e),
+                                              file_script(data, "TdmsFile.open(io.BytesIO(data))[%r][%r].read_data(%d, %d)\n"
+                                                          % (g.name, ch.name, off, ln)))
+                                continue
                             res.case((ch.path, off, ln, sig_of(segs)), True,
                                      {"window": [off, ln], "reads": rec.log[:4]} if off == 0 and ln == 1 else None)
                             need = [c for c in ent["chunks"] if c[0] < off + ln and c[1] > off]
